@@ -113,6 +113,49 @@ def _lift(o):
     return NotImplemented
 
 
+F64 = z3.Float64()
+_RNE = z3.RNE()
+
+
+def _is_fp(e):
+    return isinstance(e, z3.FPRef)
+
+
+def _to_fp(e):
+    """exact conversion of a numeric constant term to Float64 (IEEE mode of the engine)"""
+    if _is_fp(e):
+        return e
+    c = z3.simplify(e)
+    if z3.is_int_value(c):
+        return z3.FPVal(float(c.as_long()), F64)
+    if z3.is_rational_value(c):
+        return z3.FPVal(float(Fraction(c.numerator_as_long(), c.denominator_as_long())), F64)
+    E.poison('symbolic Int/Real mixed with IEEE float values')
+    return z3.fpToFP(_RNE, z3.ToReal(e) if not e.is_real() else e, F64)
+
+
+_FP_CMP = {
+    'lt': z3.fpLT, 'le': z3.fpLEQ, 'gt': z3.fpGT, 'ge': z3.fpGEQ, 'eq': z3.fpEQ,
+    'ne': lambda a, b: z3.Not(z3.fpEQ(a, b)),
+}
+_FP_AR = {
+    'add': lambda a, b: z3.fpAdd(_RNE, a, b), 'sub': lambda a, b: z3.fpSub(_RNE, a, b),
+    'mul': lambda a, b: z3.fpMul(_RNE, a, b), 'truediv': lambda a, b: z3.fpDiv(_RNE, a, b),
+}
+
+
+def fp_float(v):
+    """z3 FP numeral -> python float (bit exact)"""
+    import struct
+    if v.isNaN():
+        return float('nan')
+    if v.isInf():
+        return -INF if v.isNegative() else INF
+    bits = ((1 if v.sign() else 0) << 63) | (v.exponent_as_long(True) << 52) | \
+        v.significand_as_long()
+    return struct.unpack('>d', struct.pack('>Q', bits))[0]
+
+
 def _inf_cmp(name, other):
     # finite symbolic value  <op>  +-inf / nan
     if other != other:
@@ -125,11 +168,16 @@ def _inf_cmp(name, other):
 
 def _cmp(name, op):
     def f(self, other):
-        o = _lift(other)
+        if _is_fp(self.e) and isinstance(other, float):
+            o = z3.FPVal(other, F64)
+        else:
+            o = _lift(other)
         if o is NotImplemented:
             return NotImplemented
         if o is None:
             return _inf_cmp(name, other)
+        if _is_fp(self.e) or _is_fp(o):
+            return E.decide(_FP_CMP[name](_to_fp(self.e), _to_fp(o)))
         return E.decide(op(self.e, o))
     f.__name__ = '__%s__' % name
     return f
@@ -145,15 +193,31 @@ def _coerce(a, b):
 
 def _ar(name, op, swap=False):
     def f(self, other):
-        o = _lift(other)
+        if _is_fp(self.e) and isinstance(other, float):
+            o = z3.FPVal(other, F64)      # IEEE mode: infinities are ordinary values
+        else:
+            o = _lift(other)
         if o is NotImplemented:
             return NotImplemented
+        if o is not None and (_is_fp(self.e) or _is_fp(o)):
+            a, b = _to_fp(self.e), _to_fp(o)
+            return SNum(_FP_AR[name](b, a) if swap else _FP_AR[name](a, b))
         if o is None:
             # x + inf, inf - x, ...: result is an infinity; only + and - are given a meaning
             if name == 'add':
                 return other
             if name == 'sub':
                 return other if swap else -other
+            if name == 'truediv' and not swap and other == other:
+                return 0.0                 # finite / +-inf
+            if name == 'mul' and other == other:
+                c = z3.simplify(self.e)
+                if _is_const(c):
+                    v = c.as_long() if z3.is_int_value(c) else \
+                        Fraction(c.numerator_as_long(), c.denominator_as_long())
+                    if v == 0:
+                        return float('nan')        # 0 * inf, as IEEE
+                    return other if v > 0 else -other
             E.poison('arithmetic %s with %r' % (name, other))
             raise Unsupported(name)
         a, b = _coerce(self.e, o)
@@ -207,15 +271,19 @@ class SNum:
     __rtruediv__ = _ar('truediv', _div, True)
 
     def __neg__(self):
-        return SNum(-self.e)
+        return SNum(z3.fpNeg(self.e) if _is_fp(self.e) else -self.e)
 
     def __pos__(self):
         return self
 
     def __abs__(self):
+        if _is_fp(self.e):
+            return SNum(z3.fpAbs(self.e))
         return SNum(z3.If(self.e >= 0, self.e, -self.e))
 
     def __bool__(self):
+        if _is_fp(self.e):
+            return E.decide(z3.Not(z3.fpIsZero(self.e)))
         return E.decide(self.e != 0)
 
     def _unsupported(self, *a, **k):
@@ -246,27 +314,34 @@ def _sb(x):
     return z3.BoolVal(bool(x))
 
 
-def _rel(op, refl):
+def _rel(op, refl, name):
     def f(a, b):
         if E.concrete or not (type(a) is SNum or type(b) is SNum):
             return op(a, b)
-        if (isinstance(a, float) and a in (INF, -INF)) or \
-                (isinstance(b, float) and b in (INF, -INF)):
+        if ((isinstance(a, float) and a in (INF, -INF)) or
+                (isinstance(b, float) and b in (INF, -INF))) and not (
+                    (type(a) is SNum and _is_fp(a.e)) or (type(b) is SNum and _is_fp(b.e))):
             # comparisons between a finite symbolic value and an infinity are constant
             return op(0 if type(a) is SNum else a, 0 if type(b) is SNum else b)
         if a is b or (type(a) is SNum and type(b) is SNum and a.e.eq(b.e)):
             return refl
+        fa = type(a) is SNum and _is_fp(a.e)
+        fb = type(b) is SNum and _is_fp(b.e)
+        if fa or fb:
+            x = a.e if fa else (z3.FPVal(a, F64) if isinstance(a, float) else _to_fp(_z(a)))
+            y = b.e if fb else (z3.FPVal(b, F64) if isinstance(b, float) else _to_fp(_z(b)))
+            return SBool(_FP_CMP[name](x, y))
         x, y = _coerce(_z(a), _z(b))
         return SBool(op(x, y))
     return f
 
 
-EQ = _rel(lambda a, b: a == b, True)
-NE = _rel(lambda a, b: a != b, False)
-LE = _rel(lambda a, b: a <= b, True)
-LT = _rel(lambda a, b: a < b, False)
-GE = _rel(lambda a, b: a >= b, True)
-GT = _rel(lambda a, b: a > b, False)
+EQ = _rel(lambda a, b: a == b, True, 'eq')
+NE = _rel(lambda a, b: a != b, False, 'ne')
+LE = _rel(lambda a, b: a <= b, True, 'le')
+LT = _rel(lambda a, b: a < b, False, 'lt')
+GE = _rel(lambda a, b: a >= b, True, 'ge')
+GT = _rel(lambda a, b: a > b, False, 'gt')
 
 
 def AND(*xs):
@@ -301,6 +376,12 @@ def ITE(c, a, b):
     """value level if-then-else that does not fork"""
     if type(c) is not SBool:
         return a if c else b
+    fa = type(a) is SNum and _is_fp(a.e)
+    fb = type(b) is SNum and _is_fp(b.e)
+    if fa or fb:
+        x = a.e if fa else (z3.FPVal(a, F64) if isinstance(a, float) else _to_fp(_z(a)))
+        y = b.e if fb else (z3.FPVal(b, F64) if isinstance(b, float) else _to_fp(_z(b)))
+        return SNum(z3.If(c.e, x, y))
     if isinstance(a, float) or isinstance(b, float):
         # infinities cannot live inside a term; fork instead
         return a if bool(c) else b
@@ -356,6 +437,8 @@ def _pyval(v):
         return True
     if z3.is_false(v):
         return False
+    if isinstance(v, z3.FPNumRef):
+        return fp_float(v)
     raise HarnessError('unexpected model value %r' % (v,))
 
 
@@ -364,6 +447,8 @@ def enc_inputs(inputs):
     for k, v in inputs.items():
         if isinstance(v, Fraction):
             out[k] = {'frac': [v.numerator, v.denominator]}
+        elif isinstance(v, float):
+            out[k] = {'float': v.hex()}
         else:
             out[k] = v
     return out
@@ -372,7 +457,9 @@ def enc_inputs(inputs):
 def dec_inputs(inputs):
     out = {}
     for k, v in inputs.items():
-        if isinstance(v, dict) and 'frac' in v:
+        if isinstance(v, dict) and 'float' in v:
+            out[k] = float.fromhex(v['float'])
+        elif isinstance(v, dict) and 'frac' in v:
             out[k] = Fraction(v['frac'][0], v['frac'][1])
         else:
             out[k] = v
@@ -380,7 +467,7 @@ def dec_inputs(inputs):
 
 
 class Engine:
-    QUERY_TIMEOUT_MS = 10000
+    QUERY_TIMEOUT_MS = 30000      # only floating point queries ever get near it
 
     def __init__(self):
         self.concrete = False
@@ -482,7 +569,31 @@ class Engine:
         self.inputs[name] = v
         return v
 
+    def float(self, name, lo, hi):
+        """IEEE double in [lo, hi] (finite): arithmetic on it is z3 floating point (RNE)"""
+        if self.concrete:
+            v = float(self._given(name, lo, hi))
+            self.inputs[name] = v
+            return v
+        if name in self.inputs:
+            raise HarnessError('duplicate input %s' % name)
+        var = z3.FP(name, F64)
+        v = SNum(var)
+        self.inputs[name] = v
+        self.solver.add(z3.fpGEQ(var, z3.FPVal(float(lo), F64)),
+                        z3.fpLEQ(var, z3.FPVal(float(hi), F64)))
+        self.model = None
+        return v
+
+    def fconst(self, c):
+        """float constant as a proxy (IEEE mode)"""
+        if self.concrete:
+            return float(c)
+        return SNum(z3.FPVal(float(c), F64))
+
     def num(self, name, lo=None, hi=None, real=False):
+        if real == 'float':
+            return self.float(name, lo, hi)
         return self.real(name, lo, hi) if real else self.int(name, lo, hi)
 
     def const(self, c):
@@ -574,7 +685,7 @@ class Engine:
             taken = self.prefix[i]
             free = True
             if i < len(self.prefix_terms):
-                sx = _sexpr(c)
+                sx = _sexpr(cond)
                 rec_sx, free = self.prefix_terms[i]
                 if rec_sx != sx and self.mismatch is None:
                     self.mismatch = (i, rec_sx, sx)
@@ -605,7 +716,7 @@ class Engine:
                 taken = True
                 self.n_forks += 1
                 if sx is None:
-                    sx = _sexpr(c)
+                    sx = _sexpr(cond)
                 self.alts.append((
                     [t for _, t, _ in self.trace] + [False],
                     [(s_, f_) for s_, _, f_ in self.trace] + [(sx, True)],
@@ -616,7 +727,9 @@ class Engine:
                 taken = mv
             self.solver.add(c if taken else z3.Not(c))
         if sx is None:
-            sx = _sexpr(c)
+            # the term as built by the code under test (the simplifier may order the arguments
+            # of commutative operators by internal ids, which differ between executions)
+            sx = _sexpr(cond)
         self.trace.append((sx, taken, free))
         return taken
 
